@@ -1,0 +1,13 @@
+//go:build verif
+// +build verif
+
+package state
+
+// VerifWaitRecovery is exported only under the verif build tag. A walk ends by re-admitting the
+// pending transactions in a goroutine of its own, which keeps recoverMutex until it is done (the
+// next walk waits for it in the same way). An external monitor that wants to look at the node at
+// a quiescent point calls this after Walk has returned: it returns once no recovery is running.
+func (t *State) VerifWaitRecovery() {
+	t.recoverMutex.Lock()
+	t.recoverMutex.Unlock() //nolint:staticcheck // empty critical section on purpose
+}
